@@ -19,7 +19,8 @@
    - txList.costcap/gascap are a cache of an upper bound: the pool model uses Filter without
      it; the cache itself is modelled separately (clist, cl_add, cl_filter) and proved to be
      transparent under its invariant, which every list operation preserves;
-   - lifetime eviction, journal, Qi pool, senders cache, events are not modelled. *)
+   - lifetime eviction is modelled as its own kind of history step (evict_tick: the expired
+     accounts are parameters); journal, Qi pool, senders cache, events are not modelled. *)
 From Coq Require Import List NArith Bool.
 Import ListNotations.
 Local Open Scope N_scope.
@@ -511,6 +512,32 @@ Definition step (c : cfg) (p : pool) (o : op) (qo : list N) : pool * list verdic
 Definition run_hist (c : cfg) (p : pool) (h : list (op * list N)) : pool :=
   fold_left (fun s oq => fst (step c s (fst oq) (snd oq))) h p.
 
+(* ---------- tx_pool.go:loop, case <-evict.C: lifetime eviction ---------- *)
+(* for addr := range pool.queue { if time.Since(pool.beats[addr]) > Lifetime {
+     for _, tx := range pool.queue[addr].Flatten() { pool.removeTx(tx.Hash(), true) } } } *)
+Definition evict_queue (c : cfg) (a : N) (p : pool) : pool :=
+  fold_left (fun s t => remove_tx c t true s) (aget a (p_queue p)) p.
+(* for _, txList := range pool.pending { txs := txList.Flatten();
+     if time.Since(txs[0].Time()) > Lifetime { for _, tx := range txs { pool.removeTx(tx.Hash(), true) } } }
+   (the first removal re-queues the rest of the list, the following ones take it out of the queue) *)
+Definition evict_pending (c : cfg) (a : N) (p : pool) : pool :=
+  fold_left (fun s t => remove_tx c t true s) (aget a (p_pend p)) p.
+(* one tick of the eviction ticker, under pool.mu: first the queue loop, then the pending loop.
+   Which accounts have expired is wall clock (heartbeats, first-seen times): parameters. *)
+Definition evict_tick (c : cfg) (qexp pexp : list N) (p : pool) : pool :=
+  fold_left (fun s a => evict_pending c a s) pexp (fold_left (fun s a => evict_queue c a s) qexp p).
+
+(* histories extended by eviction ticks (no reorg run follows a tick) *)
+Inductive xop :=
+| XOp (o : op) (qo : list N)            (* a step of the histories above *)
+| XEvict (qexp pexp : list N).          (* an eviction tick with these expired queue / pending accounts *)
+Definition xstep (c : cfg) (p : pool) (x : xop) : pool :=
+  match x with
+  | XOp o qo => fst (step c p o qo)
+  | XEvict qexp pexp => evict_tick c qexp pexp p
+  end.
+Definition run_xhist (c : cfg) (p : pool) (h : list xop) : pool := fold_left (xstep c) h p.
+
 (* ---------- tx_list.go: txList with its cached thresholds ---------- *)
 (* txList = txSortedMap + costcap ("price of the highest costing transaction") + gascap
    ("gas limit of the highest spending transaction").  The pool model above works on the
@@ -612,7 +639,8 @@ Inductive cop :=
    a run only promotes the accounts whose request it has taken. *)
 | CAddNoRun (local : bool) (idx : list N)     (* addTxs without the run: the dirty accounts accumulate *)
 | CRunOn (accts : list N)                     (* a run promoting those of the accumulated dirty accounts listed *)
-| CRunAny.                                    (* a run promoting SOME subset of them (every subset is tried) *)
+| CRunAny                                     (* a run promoting SOME subset of them (every subset is tried) *)
+| CEvict (qexp pexp : list N).                (* an eviction tick (no run follows): expired queue / pending accounts *)
 
 Definition dummy_tx : tx := T 0 0 0 0 0.
 Definition tx_at (tbl : list tx) (i : N) : tx := nth (N.to_nat i) tbl dummy_tx.
@@ -628,7 +656,7 @@ Definition to_op (tbl : list tx) (o : cop) : op :=
   | CAdd l idx => OAdd l (map (tx_at tbl) idx)
   | CSetGasPrice g => OSetGasPrice g
   | CHead st d i => OHead (Reset st (map (tx_at tbl) d) (map (tx_at tbl) i))
-  | CAddNoRun _ _ | CRunOn _ | CRunAny => OTick   (* not history steps: handled by cstep_exec / check_steps_d *)
+  | CAddNoRun _ _ | CRunOn _ | CRunAny | CEvict _ _ => OTick   (* not steps of [op]: handled by cstep_exec / check_steps_d *)
   end.
 
 Fixpoint list_eqb (a b : list N) : bool :=
@@ -696,6 +724,7 @@ Definition cstep_exec (c : cfg) (tbl : list tx) (p : pool) (dirty : list N) (o :
       let '(p1, vs, d) := add_txs c (map (tx_at tbl) idx) l p in (p1, vs, d ++ dirty)
   | CRunOn accts =>
       (run c None (filter (fun a => mem_n a accts) dirty) [] p, [], filter (fun a => negb (mem_n a accts)) dirty)
+  | CEvict qexp pexp => (evict_tick c qexp pexp p, [], dirty)
   | _ => let '(p', vs') := step c p (to_op tbl o) [] in (p', vs', dirty)
   end.
 
